@@ -122,7 +122,7 @@ func vFindTagged(ff FeatureSlice, tag string) (Feature, int) {
 }
 
 //verif:harness prop=C02 quick=6 thorough=12 merge=concrete timeout=1500
-//verif:bounds API level: gts.Insert and gts.Embed with a host of length 0..3 and a guest of length 0..2 (symbolic residues, every insertion index incl. 0 and len(host)); host table: source + one feature (range/point/between | 2-part join | complemented range | 2-part order, symbolic coordinates and flags); guest table: one range with symbolic coordinates (when the guest is non-empty)
+//verif:bounds API level: gts.Insert and gts.Embed with a host of length 0..3 and a guest of length 0..2 (symbolic residues, every insertion index incl. 0 and len(host)); host table: source + one feature (range/point/between | 2-part join | complemented range | 2-part order, symbolic coordinates and flags); guest table: one range, point or between-site with symbolic coordinates (an empty guest carries a site)
 func VH_C02_insert_api() {
 	sh := vShard(6 + 6*vTier())
 	embed := sh%2 == 1
@@ -143,7 +143,7 @@ func VH_C02_insert_api() {
 	gff := FeatureSlice{}
 	var gloc Location
 	if G > 0 {
-		gloc = vGenAtom("gf", G, 1)
+		gloc = vGenAtom("gf", G, 3) // range, point or a site between two guest residues (incl. before the first / after the last)
 		gff = gff.Insert(Feature{"cds", gloc, Props{[]string{"tag", "g"}}})
 	} else {
 		// an empty guest can still carry a feature (a site), e.g. what Delete leaves of a fully deleted record
@@ -206,11 +206,15 @@ func VH_C02_insert_api() {
 		vAssert("guest-feature-present-once", n == 1)
 		if n == 1 && G == 0 {
 			bs := vAtoms(f.Loc)
-			vAssert("guest-site-placed", vAnd(len(bs) == 1, vAnd(bs[0].kind == vkBetween, vInRange(bs, L+G))))
+			vAssert("guest-site-placed", vAnd(len(bs) == 1, vAnd(bs[0].kind == vkBetween, bs[0].s == i)))
 		}
 		if n == 1 && G > 0 {
 			as, bs := vAtoms(gloc), vAtoms(f.Loc)
 			vAssert("guest-feature-residues", vCovS(bs, x, false) == vAnd(x >= i, vCovS(as, x-i, false)))
+			if as[0].kind == vkBetween {
+				// a guest site keeps its place among the guest's residues
+				vAssert("guest-site-placed", vAnd(len(bs) == 1, vAnd(bs[0].kind == vkBetween, bs[0].s == as[0].s+i)))
+			}
 			vAssert("guest-feature-key", f.Key == "cds")
 		}
 	}
